@@ -1,11 +1,11 @@
+(* Known-finding classifiers of the semantic engine (predicates on the *input*: body + plan) and the
+   per-property reports for C16-C20. *)
 From Coq Require Import List Arith NArith ZArith Bool Lia.
 Import ListNotations.
-From Orca Require Import Flat Lowering CheckLow Tree WasmP CheckSem.
+From Orca Require Import Util Flat Lowering CheckLow Tree TreeLower WasmP CheckSem.
 
 Inductive ckind := KBlock | KLoop | KIf.
 Definition is_loop k := match k with KLoop => true | _ => false end.
-
-Definition blocklike (i : instr) : bool := match i with IPlain _ _ => false | _ => true end.
 
 Section K.
 Variable flags_at : nat -> flags.
@@ -31,6 +31,7 @@ Fixpoint classes (fuel : nat) (ctx : list ckind) (is : list instr) : list N :=
       match ins with
       | IPlain i (FBr n) => if has_sa i then branch_classes ctx [n] else []
       | IPlain i (FBrIf n) => if has_sa i then branch_classes ctx [n] else []
+      | IPlain i (FBrOn n _) => if has_sa i then branch_classes ctx [n] else []
       | IPlain i (FBrTable ts d) => if has_sa i then branch_classes ctx (ts ++ [d]) else []
       | IPlain _ _ => []
       | IBlock _ _ _ b => classes fuel' (KBlock :: ctx) b
@@ -40,24 +41,57 @@ Fixpoint classes (fuel : nat) (ctx : list ckind) (is : list instr) : list N :=
           ++ classes fuel' (KIf :: ctx) t ++ classes fuel' (KIf :: ctx) e
       end) is
   end.
+
+(* number of flagged registrations (one per target of every instrumented branch) *)
+Fixpoint registrations (fuel : nat) (is : list instr) : nat :=
+  match fuel with
+  | O => 0
+  | S fuel' =>
+    fold_left (fun a ins => a +
+      match ins with
+      | IPlain i (FBr _) | IPlain i (FBrIf _) | IPlain i (FBrOn _ _) => if has_sa i then 1 else 0
+      | IPlain i (FBrTable ts _) => if has_sa i then S (length ts) else 0
+      | IPlain _ _ => 0
+      | IBlock _ _ _ b | ILoop _ _ _ b => registrations fuel' b
+      | IIf _ _ _ _ t e => registrations fuel' t + registrations fuel' e
+      end) is 0
+  end.
 End K.
 
 Definition known_classes (c : scase) : list N :=
-  match parse_body (s_body c), apply_plan false (s_plan c) (map (fun o => (o, no_flags)) (s_body c)) false with
-  | Some (t, _), Some (fb, _) => classes (fun i => snd (nth i fb (FEnd, no_flags))) (S (length (s_body c))) [] t
+  match parse_body (c_body (s_l c)), flagged_body c with
+  | Some (t, _), Some fb =>
+      let n := S (length (c_body (s_l c))) in
+      classes (flags_fn fb) n [] t
+      ++ (if (3 <=? registrations (flags_fn fb) n t)%nat then [18%N] else [])
   | _, _ => [0%N]
   end.
+Definition in_class (k : N) (c : scase) : bool := existsb (N.eqb k) (known_classes c).
+Definition only (ks : list N) (c : scase) : list N :=
+  nodup N.eq_dec (filter (fun k => existsb (N.eqb k) ks) (known_classes c)).
 
-(* diverging cases outside every known class; and the number of agreeing cases that are inside one *)
-Fixpoint triage (i : N) (cs : list scase) (unlisted : list N) (known_hits clean_known : N) : list N * N * N :=
-  match cs with
-  | [] => (rev unlisted, known_hits, clean_known)
-  | c :: cs' =>
-      let k := negb (is_nil (known_classes c)) in
-      match check c with
-      | VSame => triage (i + 1) cs' unlisted known_hits (if k then clean_known + 1 else clean_known)%N
-      | _ => if k then triage (i + 1) cs' unlisted (known_hits + 1)%N clean_known
-             else triage (i + 1) cs' (i :: unlisted) known_hits clean_known
-      end
-  end.
-Definition report2 (cs : list scase) := (N.of_nat (length cs), triage 0 cs [] 0 0).
+(* ids of probes made in special modes (and the function entry/exit probes) *)
+Definition const_ids (code : list fop) : list Z := flat_map (fun o => match o with FConst z => [z] | _ => [] end) code.
+Definition special_ids (c : scase) : list Z :=
+  flat_map (fun e => let '(_, m, code) := e in if special_mode m then const_ids code else []) (c_plan (s_l c))
+  ++ const_ids (c_entry (s_l c)) ++ const_ids (c_exit (s_l c)).
+
+Definition is_same v := match v with VSame => true | _ => false end.
+Definition is_fuel v := match v with VFuel => true | _ => false end.
+
+(* C16: results / traps / globals / original events and the before-after probe events coincide once the
+   events of special-mode probes are erased; the instrumented module validates *)
+Definition verdict16 (c : scase) : Util.verdict :=
+  let keep z := negb (existsb (Z.eqb z) (special_ids c)) in
+  let v := check keep c in
+  (agree_sem c, negb (is_fuel v), is_same v && s_valid c, only [18%N] c).
+(* C17-C20: every probe event at exactly the specified moments *)
+Definition verdict_all (ks : list N) (c : scase) : Util.verdict :=
+  let v := check (fun _ => true) c in
+  (agree_sem c, negb (is_fuel v) && negb (in_class 99 c), is_same v, only ks c).
+
+Definition report_C16 := run_report verdict16.
+Definition report_C17 := run_report (verdict_all []).
+Definition report_C18 := run_report (verdict_all []).
+Definition report_C19 := run_report (verdict_all [15%N]).
+Definition report_C20 := run_report (verdict_all [16%N; 17%N; 18%N]).
